@@ -1402,6 +1402,13 @@ class Interp:
         rv = res["v"]
         if isinstance(rv, (Arr, CArr)):
             raise Unsupported("array in symbolic short-circuit")
+        cu = self.use(st, cur)
+        if not (V.is_boolish(cu) and V.is_boolish(self.use(st, rv))):
+            # Python's `a or b` / `a and b` return one of the OPERANDS, not a truth value (`nodata or attrs.get("nodata")`)
+            try:
+                return self.ite_any(c, rv, cu) if is_and else self.ite_any(c, cu, rv)
+            except Unsupported:
+                pass
         rb = self.truth(st, rv)
         if is_and:
             return z_and(c, rb)
